@@ -1200,6 +1200,9 @@ func (g *Gen) next(fr *Frame, st *State, x *ssa.Next) Val {
 	if !x.IsString && len(it.Tup) == 1 {
 		m := it.Tup[0]
 		if mt, ok := types.Unalias(m.Ty).Underlying().(*types.Map); ok {
+			// go/ssa gives unused components of the tuple an invalid type: take key and element types from the map
+			kv = g.freshVal(fr.id+"nextk", mt.Key())
+			vv = g.freshVal(fr.id+"nextv", mt.Elem())
 			dn, ds, vn, vs := g.mapHeaps(mt)
 			dh := g.heapTerm(st, dn, ds)
 			vh := g.heapTerm(st, vn, vs)
@@ -1295,6 +1298,15 @@ func (g *Gen) returnClauses(fr *Frame, st *State, x *ssa.Return, vs []Val, r str
 	}
 	if len(vs) == 1 {
 		env.vars["ret"] = vs[0]
+	}
+	if os.Getenv("GOVC_DEBUG_KEY") != "" {
+		var bs []string
+		for k := range st.cells {
+			if strings.HasPrefix(k, "bind$") {
+				bs = append(bs, k)
+			}
+		}
+		fmt.Fprintf(os.Stderr, "  return#%d at %v binds=%v\n", k, g.posOf(x), bs)
 	}
 	for _, cl := range fr.fc.Returns {
 		v, err := g.evalBool(cl.Expr, env)
